@@ -33,6 +33,7 @@ class Recorder(object):
         self.events = []
         self.cellval = cellval
         self.rangeval = rangeval
+        self.kept = []
         p = self.p
         p.on('callCellValue', self.on_cell)
         p.on('callRangeValue', self.on_range)
@@ -45,11 +46,14 @@ class Recorder(object):
 
     def on_cell(self, cell, setter):
         self.events.append(['cell'] + self.cellinfo(cell))
+        self.kept.append((cell, self.cellinfo(cell)))
         if self.cellval is not None:
             setter(self.cellval(cell))
 
     def on_range(self, start, end, setter):
         self.events.append(['range', self.cellinfo(start), self.cellinfo(end)])
+        self.kept.append((start, self.cellinfo(start)))
+        self.kept.append((end, self.cellinfo(end)))
         if self.rangeval is not None:
             setter(self.rangeval(start, end))
 
@@ -61,11 +65,17 @@ class Recorder(object):
 
     def run(self, env, text):
         del self.events[:]
+        self.kept = []
         env.evals += 1
         try:
             r = self.p.parse(text)
         except Exception as e:
             r = ('raised', e)
+        # a host may hold on to the cell objects it was handed: they keep saying what they said during the event
+        for cell, info in self.kept:
+            now = self.cellinfo(cell)
+            if now != info:
+                self.events.append(['a cell object handed to the listener changed after the event', info, now])
         return list(self.events), env.out(r)
 
 
@@ -506,6 +516,91 @@ class Setter(Sub):
         return None
 
 
+SUB_OPS = [['off', None], ['off', 'L1'], ['on', 'L1'], ['on', 'L2'], ['once', 'L1'], ['on', 'L1c'], ['parse']]
+
+
+class Subscriptions(Sub):
+    name = 'c10.subscriptions'
+    rule = ('every sequence of <= 3 subscription operations on a fresh parser - off(event), off(event, L1), on L1, on L2, once L1, '
+            'on L1 with a context, an evaluation in between - for each of the four events, then two evaluations: the listeners '
+            'are called by parse() exactly as the emitter model says (subscription order, once-listeners once, removed ones '
+            'not at all; an off() before anything was subscribed changes nothing), and the reference takes the last value set; '
+            'non-trivial = sequence with an off before an on')
+    min_cases = 400
+    min_nontrivial = 100
+
+    def cases(self, tier, unit):
+        for kind in ('cell', 'range', 'var', 'fn'):
+            for n in (1, 2, 3):
+                for seq in itertools.product(range(len(SUB_OPS)), repeat=n):
+                    yield [kind, list(seq)]
+
+    def check(self, env, case):
+        from .c20 import ModelEmitter
+        kind, seq = case
+        event = {'cell': 'callCellValue', 'range': 'callRangeValue', 'var': 'callVariable', 'fn': 'callFunction'}[kind]
+        text = {'cell': 'B7+1', 'range': 'SUM(B7:C9)+1', 'var': 'myvar+1', 'fn': 'MYFN(1)+1'}[kind]
+        p = env.new_parser()
+        m = ModelEmitter()
+        if kind == 'var':
+            p.set_variable('myvar', 100)
+        if kind == 'fn':
+            p.set_function('MYFN', lambda x: 100)
+        log, mlog = [], []
+        vals = {'L1': 10, 'L2': 20, 'L1c': 30}
+
+        def mk(tag, store):
+            def listener(*args, **ctx):
+                setter = args[-1]
+                store.append([tag, sorted(ctx.items())])
+                v = vals[tag]
+                setter([[v]] if kind == 'range' else v)
+            return listener
+        real = dict((t, mk(t, log)) for t in vals)
+        model = dict((t, mk(t, mlog)) for t in vals)
+        ops = [SUB_OPS[i] for i in seq]
+        offs_before_on = False
+        seen_on = False
+        for op in ops + [['parse'], ['parse']]:
+            if op[0] == 'parse':
+                env.evals += 1
+                before = len(mlog)
+                last = {'v': None}
+                args = {'cell': (None,), 'range': (None, None), 'var': ('myvar',), 'fn': ('MYFN', [1])}[kind]
+                m.emit(event, *(args + ((lambda v: last.__setitem__('v', v)),)))
+                try:
+                    o = env.out(p.parse(text))
+                except Exception as e:
+                    o = ['x', type(e).__name__]
+                lv = last['v']
+                base = {'cell': 0, 'range': 0, 'var': 100, 'fn': 100}[kind]
+                got_v = (lv[0][0] if kind == 'range' else lv) if lv is not None else base
+                want = ['v', got_v + 1]
+                if log != mlog:
+                    return fail('%s after %r: parse(%r) called the listeners %r, the emitter model says %r' % (event, ops, text, log, mlog), mlog, log)
+                if o != want:
+                    return fail('%s after %r: parse(%r) = %r, expected %r (value of the last listener that answered)' % (event, ops, text, o, want), want, o)
+                continue
+            tag = op[1]
+            for em, table in ((p, real), (m, model)):
+                if op[0] == 'off':
+                    em.off(event) if tag is None else em.off(event, table[tag])
+                elif op[0] == 'once':
+                    em.once(event, table[tag])
+                elif tag == 'L1c':
+                    em.on(event, table[tag], {'k': 1})
+                else:
+                    em.on(event, table[tag])
+            if op[0] == 'off' and not seen_on:
+                offs_before_on = True
+            if op[0] in ('on', 'once'):
+                seen_on = True
+        if offs_before_on and seen_on:
+            env.nt()
+        env.note(kind)
+        return None
+
+
 RAISING = [
     # (formula, expected events, expected outcome) - functions that RAISE (built-in domain errors, aggregates over an error,
     # a raising custom function) still are function calls: one callFunction event each, after their arguments
@@ -653,4 +748,4 @@ class EventScale(Sub):
         return None
 
 
-SUBS = [Order(), Labels(), Ranges(), Setter(), RaisingCalls(), EventScale()]
+SUBS = [Order(), Labels(), Ranges(), Setter(), Subscriptions(), RaisingCalls(), EventScale()]
